@@ -236,12 +236,16 @@ impl<'a> Gen<'a> {
         };
         self.page = page_size;
         // region size in pages; regions must stay >= 64 pages (see DESIGN)
-        let region_pages = match self.rng.below(10) {
+        let region_pages = if self.prof.page_4k_only {
+            // C19: only geometries both releases produce themselves (region size is not user-settable)
+            let _ = self.rng.below(10);
+            None
+        } else { match self.rng.below(10) {
             0..=3 => Some(64),
             4..=5 => Some(128),
             6..=7 => Some(512),
             _ => None,
-        };
+        } };
         let cache = *self.rng.pick(&[0u64, 0, page_size as u64, 4 * page_size as u64, 65536, 1 << 20, 1 << 30]);
         self.max_val = match region_pages {
             Some(rp) => (rp * page_size / 4).min(48 * 1024),
